@@ -592,6 +592,7 @@ class ModelFittingDataTree(ProblemSingleObjective):
 
                 start = a
                 stop = a + b
-                new_processor.set(key=var.key, value=parameter[start:stop])
+                # Note: a copy, not a view of 'parameter' that is shared by all processors
+                new_processor.set(key=var.key, value=parameter[start:stop].copy())
             a += b
         return new_processor
